@@ -68,3 +68,15 @@ Example C20_nonvacuous :
   spacing_radicand (X := Qx) (nn_dists (X := Qx) (dist_matrix (X := Qx) Cityblock [[0]; [1]; [3]; [4]]%Q)) == 0
   /\ ~ spacing_radicand (X := Qx) (nn_dists (X := Qx) (dist_matrix (X := Qx) Cityblock [[0]; [1]; [3]; [7]]%Q)) == 0.
 Proof. split; vm_compute; [reflexivity|discriminate]. Qed.
+
+(* "with zero_to_one it equals the value computed on objectives rescaled by the ideal and nadir points": the coordinate map of the
+   modelled ZeroToOneNormalization (extended rationals: the NaN trick for ideal = nadir is part of the model): (x - ideal) / (nadir - ideal),
+   inside [0, 1] for ideal <= x <= nadir; a dimension with ideal = nadir is only translated *)
+From PV Require Import Base.NumEQ Model.Spacing Proofs.Z2oP.
+Theorem C20_zero_to_one_is_the_affine_rescaling :
+  forall l u x : Q,
+    ((l < u)%Q -> z2o_coord (X := EQx) (Fin l) (Fin u) (Fin x) = Fin ((x + - l) / (u + - l)) /\
+                  ((l <= x)%Q -> (x <= u)%Q -> (0 <= (x + - l) / (u + - l))%Q /\ ((x + - l) / (u + - l) <= 1)%Q)) /\
+    ((l == u)%Q -> z2o_coord (X := EQx) (Fin l) (Fin u) (Fin x) = Fin (x + - l)).
+Proof. exact z2o_coord_spec. Qed.
+Print Assumptions C20_zero_to_one_is_the_affine_rescaling.
